@@ -90,6 +90,7 @@ class Ctx:
 
     def __init__(self, mode="merge", branch_timeout_ms=3000, max_depth=400):
         self.mode = mode
+        self.deadline = None
         self.assume_defined = True  # obligations are stated for inputs on which every division is defined
         self.branch_timeout_ms = branch_timeout_ms
         self.max_depth = max_depth
@@ -145,6 +146,8 @@ class Ctx:
 
     # ---- solver plumbing
     def _check(self, solver, *assumptions, timeout_ms=None):
+        if self.deadline is not None and time.time() > self.deadline:
+            raise BudgetExceeded("config deadline")
         solver.set("timeout", int(timeout_ms or self.branch_timeout_ms))
         t0 = time.time()
         r = str(solver.check(*assumptions))
@@ -375,14 +378,30 @@ class SB:
     def __eq__(self, o):
         b = SB._t(o)
         if b is None:
+            if isinstance(o, (int, float, np.integer, np.floating, Fraction, SR)):
+                return self.as_real() == o
             return NotImplemented
         return mkb(self.t == b)
 
     def __ne__(self, o):
         b = SB._t(o)
         if b is None:
+            if isinstance(o, (int, float, np.integer, np.floating, Fraction, SR)):
+                return self.as_real() != o
             return NotImplemented
         return mkb(self.t != b)
+
+    def __lt__(self, o):
+        return self.as_real() < o
+
+    def __le__(self, o):
+        return self.as_real() <= o
+
+    def __gt__(self, o):
+        return self.as_real() > o
+
+    def __ge__(self, o):
+        return self.as_real() >= o
 
     __hash__ = None
 
@@ -914,18 +933,19 @@ class PathRecord:
         self.npc = npc
 
 
-def explore(fn, mode="merge", max_paths=2000, max_seconds=None, branch_timeout_ms=3000, max_depth=400):
+def explore(fn, mode="merge", max_paths=2000, max_seconds=None, branch_timeout_ms=3000, max_depth=400, deadline=None):
     """Run fn() once per feasible decision prefix.  fn does its own obligation checking on the
     live context.  Returns (records, ctx, complete)."""
     global CTX
     c = Ctx(mode=mode, branch_timeout_ms=branch_timeout_ms, max_depth=max_depth)
     CTX = c
+    c.deadline = deadline
     out = []
     t0 = time.time()
     complete = True
     try:
         while c.pending:
-            if len(out) >= max_paths or (max_seconds and time.time() - t0 > max_seconds):
+            if len(out) >= max_paths or (max_seconds and time.time() - t0 > max_seconds) or (deadline and time.time() > deadline):
                 complete = False
                 break
             c.reset_path(c.pending.pop())
